@@ -13,7 +13,7 @@ PRELUDE = r'''#![allow(dead_code, unused_imports, unused_mut, clippy::all)]
 extern crate alloc;
 use generic_array::typenum::operator_aliases::{Add1, Prod, Sum};
 use generic_array::typenum::*;
-use generic_array::{arr, box_arr, ArrayLength, GenericArray};
+use generic_array::{arr, box_arr, ArrayLength, ConstArrayLength, GenericArray, IntoArrayLength};
 use std::cell::RefCell;
 
 thread_local! { static LOG: RefCell<Vec<u32>> = RefCell::new(Vec::new()); }
@@ -168,6 +168,18 @@ def build(tier, seed):
                 f"    for (w, g) in [(\"const arr![list]\", K3.as_slice()), (\"arr![list]\", a3.as_slice()), (\"box_arr![list]\", b3.as_slice())] {{\n"
                 f"        if g != &nl[..] {{ fail(@ID@, &format!(\"{{}}: element expressions that mention the caller's own items differ from the native literal\", w)); }}\n    }}")
         add("hygiene_caller_items", {"n": n, "consts": cs, "fns": fs}, "", body)
+    # arr! repeat lengths that name a const parameter or an associated constant of the enclosing item (wherever [x; n] works).
+    # box_arr![x; <expr>] declares a helper const item for its length on the unchanged tree and so never supported this: not generated
+    for k in [0, 1, 5, 64]:
+        x = rng.randrange(1 << 31)
+        decl = (f"fn filled_@ID@<const K: usize>(v: u32) -> GenericArray<u32, ConstArrayLength<K>> where Const<K>: IntoArrayLength {{ arr![v; {{ K }}] }}\n"
+                f"struct Blk_@ID@;\nimpl Blk_@ID@ {{\n    const WORDS: usize = {k};\n    fn mk() -> GenericArray<u32, U{k}> {{ arr![{x}u32; {{ Self::WORDS }}] }}\n"
+                f"    const ONES: GenericArray<u32, U{k}> = arr![{x}u32; {{ Self::WORDS }}];\n}}")
+        body = (f"    let native = [{x}u32; {k}];\n    let _ = take();\n    let a = filled_@ID@::<{k}>(lg(0, {x}));\n    let log = take();\n"
+                f"    if a.as_slice() != &native[..] || log != vec![0] {{ fail(@ID@, \"arr![v; {{ K }}] with a const parameter as length\"); }}\n"
+                f"    if Blk_@ID@::mk().as_slice() != &native[..] || Blk_@ID@::ONES.as_slice() != &native[..] {{ fail(@ID@, \"arr![x; {{ Self::WORDS }}] with an associated constant as length\"); }}")
+        iid[0] += 1
+        items.append((iid[0], "repeat_len_from_enclosing_item", {"n": k}, decl.replace("@ID@", str(iid[0])), body.replace("@ID@", str(iid[0]))))
     # repeat with a non-Copy but Clone element is only offered by box_arr!
     for n in [0, 1, 3, 17]:
         body = (f"    let b: Box<GenericArray<String, U{n}>> = box_arr![String::from(\"q\"); U{n}];\n"
@@ -240,7 +252,7 @@ def run(root, pid, tier, seed):
                             hit = True
                     if not hit:
                         # a const item at top level
-                        mm = re.search(r"const [CRS]_(\d+)", err[m.start():m.start() + 600])
+                        mm = re.search(r"(?:const [CRST]|fn filled|fn boxed|Blk)_(\d+)", err[m.start():m.start() + 600])
                         if mm:
                             bad.setdefault(int(mm.group(1)), "const item does not compile")
                             hit = True
@@ -271,7 +283,7 @@ def run(root, pid, tier, seed):
     samples = [{"kind": it[1], "params": it[2], "body": it[4][:300]} for it in (items[2], items[40], items[-6], items[-1])]
     return E.evidence(
         pid, tier, seed, "exploration", 2 * len(items), len(nontrivial),
-        "generated invocations: list form with every element count 0..=64 plus 100, 128, 255, 256 (with and without trailing comma, including arr![] and arr![, ]) whose element expressions log their evaluation; non-Copy (String) list form; const-position list form; both repeat forms arr![x; U<n>] and arr![x; n] over 20 lengths up to 1024 in const and let position, with pure, logging and impure x; box_arr! with the same arguments; list forms whose elements move non-Copy locals; repeat forms whose length is a type-level expression (Add1, Sum, Prod) in const and let position; box_arr! repeat with a Clone-only element; list forms whose element expressions leave temporaries with observable destructors behind (values and the complete evaluation/drop log must be those of the native literal); list forms whose elements need the expected type (Box<dyn Fn>, &[u8]) to flow into the expressions; element expressions that mention items of the caller under ~60 plausible names (LEN, N, T, len(), transmute() ...; macro_rules! hygiene does not cover items) in all forms and positions. Every program is compiled against the crate built in the dev and in the release profile. "
+        "generated invocations: list form with every element count 0..=64 plus 100, 128, 255, 256 (with and without trailing comma, including arr![] and arr![, ]) whose element expressions log their evaluation; non-Copy (String) list form; const-position list form; both repeat forms arr![x; U<n>] and arr![x; n] over 20 lengths up to 1024 in const and let position, with pure, logging and impure x; box_arr! with the same arguments; list forms whose elements move non-Copy locals; repeat forms whose length is a type-level expression (Add1, Sum, Prod) in const and let position; box_arr! repeat with a Clone-only element; list forms whose element expressions leave temporaries with observable destructors behind (values and the complete evaluation/drop log must be those of the native literal); list forms whose elements need the expected type (Box<dyn Fn>, &[u8]) to flow into the expressions; repeat lengths that name a const parameter or an associated constant of the enclosing item; element expressions that mention items of the caller under ~60 plausible names (LEN, N, T, len(), transmute() ...; macro_rules! hygiene does not cover items) in all forms and positions. Every program is compiled against the crate built in the dev and in the release profile. "
         "Oracle: the result coerces to an explicitly written GenericArray<_, U{k}> (so the inferred length is right) and N::USIZE = k, equals the native array literal with the same expressions, the evaluation log is exactly 0..k once each left to right; repeat forms equal [x; n] and evaluate x as [x; n] / vec![x; n] do; *box_arr![..] == arr![..]. "
         "non-trivial = invocations with at least two elements; distinct = distinct (kind, parameters)",
         samples, classes, exhaustive=False, assumptions=["a bare named const as repeat length is parsed as a type by the macro and is outside the documented forms"],
